@@ -272,6 +272,11 @@ impl<A: LoadableAsset + SeekableAsset> TapeImpl for Tap<A> {
         self.delay = 0;
         self.asset.seek(SeekFrom::Start(0))?;
         self.tape_ended = false;
+        // Restart pulse state machine from the first block, forget saved position
+        self.prev_state = TapeState::Stop;
+        if self.state != TapeState::Stop {
+            self.state = TapeState::Play;
+        }
         Ok(())
     }
 }
